@@ -17,7 +17,8 @@
      SCall x m y   x := y.m(..), dispatched BY NAME to the method m of any of
                    the four classes; the other arguments are not tracked: the
                    callee's parameters hold arbitrary existing values
-     SExt x        one call of any PUBLIC method of any existing object by
+     SExt x        one call of any PUBLIC method (or private method the package
+                   itself calls from outside, e_ext) of any existing object by
                    code outside the four classes (builtins such as str/hash/
                    getattr, dumpers, module functions), x := any existing value
      SReturn x     return x (also: yield x, as `SIf (SReturn x) SSkip`)
@@ -53,10 +54,13 @@ Fixpoint block (l : list stmt) : stmt :=
   | s :: r => SSeq s (block r)
   end.
 
-(* one method of one class: class name, method name, number of IR variables *)
+(* one method of one class: class name, method name, number of IR variables,
+   whether the name is also used on some receiver by the package's own code
+   OUTSIDE the four classes (e.g. dumpers.py calling a private helper) *)
 Record entry : Type := mkEntry {
   e_class : string;
   e_name : string;
   e_nvars : nat;
+  e_ext : bool;
   e_body : stmt
 }.
